@@ -277,6 +277,18 @@ func (d *dumper) typeID(t types.Type) int {
 			ms[m.Name()] = map[string]any{"key": objFuncKey(m), "ptr": ptr}
 		}
 		ent["methods"] = ms
+		// full method set of *T (includes promoted methods), for devirtualising interface calls
+		mset := map[string]any{}
+		mset_ := types.NewMethodSet(types.NewPointer(x))
+		for i := 0; i < mset_.Len(); i++ {
+			sel := mset_.At(i)
+			if fn, ok := sel.Obj().(*types.Func); ok {
+				sig := fn.Type().(*types.Signature)
+				_, ptr := sig.Recv().Type().(*types.Pointer)
+				mset[fn.Name()] = map[string]any{"key": objFuncKey(fn), "index": sel.Index(), "ptrrecv": ptr}
+			}
+		}
+		ent["mset"] = mset
 	case *types.Alias:
 		ent["k"] = "alias"
 		ent["under"] = d.typeID(types.Unalias(x))
@@ -313,6 +325,18 @@ func (d *dumper) typeID(t types.Type) int {
 			ms = append(ms, map[string]any{"name": m.Name(), "sig": d.typeID(m.Type())})
 		}
 		ent["methods"] = ms
+		// full method set of *T (includes promoted methods), for devirtualising interface calls
+		mset := map[string]any{}
+		mset_ := types.NewMethodSet(types.NewPointer(x))
+		for i := 0; i < mset_.Len(); i++ {
+			sel := mset_.At(i)
+			if fn, ok := sel.Obj().(*types.Func); ok {
+				sig := fn.Type().(*types.Signature)
+				_, ptr := sig.Recv().Type().(*types.Pointer)
+				mset[fn.Name()] = map[string]any{"key": objFuncKey(fn), "index": sel.Index(), "ptrrecv": ptr}
+			}
+		}
+		ent["mset"] = mset
 	case *types.Signature:
 		ent["k"] = "sig"
 		ent["params"] = d.tuple(x.Params())
